@@ -70,6 +70,9 @@ def fbits(f):
     return struct.pack(">d", f)
 
 
+TALLY = Counter()       # per-process tallies of oracle decisions (folded into the task counters)
+
+
 def diff(o, g):
     """None if `g` is indistinguishable from the reference `o` up to the representation
     changes the statement allows (machine <-> big integer of equal value; float <-> decimal
@@ -90,6 +93,7 @@ def diff(o, g):
         if isinstance(g, Dec):
             if math.isinf(o):
                 return "inf->dec"
+            TALLY["printed_floats_reread_by_python_float"] += 1
             try:
                 back = float(g.text)
             except ValueError:
@@ -856,7 +860,8 @@ def check_texts(ctx, items, fam):
             if c2 == cls:
                 small = lit
                 break
-        detail = small if len(small) <= 60 else "text:len>60"
+        detail = small.strip(" \t\n\r")
+        detail = detail if len(detail) <= 60 else "text:len>60"
         ctx.report("text:%s:%s" % (route, cls), detail,
                    {"kind": "text", "route": route, "class": cls, "family": fam, "text": small,
                     "text_hex": small.encode("utf-8").hex(), "original": text, "stream": stream_note.get(i),
@@ -1282,6 +1287,7 @@ def nontrivial(v):
 def task(t):
     fam, arg, idx, seed, tier, profile, cli, batch = t
     ctx = Ctx(profile, cli, f"c07/{seed}/{fam}/{arg}/{idx}")
+    TALLY.clear()
     out = {"fam": fam, "values": 0, "texts": 0, "digests": set(), "sample": None}
     try:
         if fam in ("rfc", "rfc-fixed", "rfc-u"):
@@ -1314,6 +1320,7 @@ def task(t):
         ctx.inconc.append(classify_death(e))
     finally:
         ctx.close()
+    ctx.n.update(TALLY)
     out["n"] = dict(ctx.n)
     out["viol"] = ctx.viol
     out["inconc"] = ctx.inconc
@@ -1468,7 +1475,7 @@ def main():
             "python json.loads on tojson text": counts["tojson_text_read_by_python_json"],
             "python json raw_decode on CLI output (every option)": counts["cli_output_read_by_python_json"],
             "python json.loads as reference reader of generated RFC 8259 texts": texts,
-            "python float() on printed floats": counts["roundtrip_tojson_fromjson"],
+            "python float() on printed floats": counts["printed_floats_reread_by_python_float"],
             "jaq -c . as reader of jaq's own output": sum(v for k, v in counts.items() if k.startswith("cli_print_then_parse:")),
         },
         "cli_option_sets": [n for n, _ in CLI_OPTS], "writer_option_sets": [n for n, _ in PP_OPTS],
